@@ -262,3 +262,167 @@ void c12::register_bytes()
       }
     });
 }
+
+// ---------------------------------------------------------------- long texts: counters across 2^8 / 2^16 and digit boundaries
+// Text (a^k '\n')^(l-1) a^(c-1) for l, c over the lattice (k = 0, and k = 1 for the lines).  Linear schedule: read
+// everything with get_position before every character (offset, line, column against an incrementally stepped
+// model: newline => line+1, column 1; else column+1 -- the documented definition applied step by step), save the
+// positions at which line or column is a lattice value or 255..257 / 65535..65537, read past the end, rewind to
+// every saved position (descending) and read three characters, then rewind to the start and read everything again.
+namespace
+{
+template <class Ch> struct long_runner
+{
+  std::basic_string<Ch> const &text;
+  string_world<Ch> w;
+  std::string const t = std::string("<") + cname<Ch>::v + ">";
+  struct saved
+  {
+    std::size_t index;
+    std::uint64_t line, column;
+    position<Ch> pos;
+  };
+  std::vector<saved> marks;
+
+  explicit long_runner(std::basic_string<Ch> const &tx) : text(tx), w(tx) {}
+
+  static bool interesting(std::uint64_t v)
+  {
+    for (std::uint64_t x : lattice())
+      if (x == v)
+        return true;
+    return (v >= 255 && v <= 257) || (v >= 65535 && v <= 65537);
+  }
+
+  bool expect(position<Ch> const &p, std::size_t i, std::uint64_t line, std::uint64_t column, char const *phase)
+  {
+    long long const off = static_cast<long long>(std::streamoff(p.pos()));
+    bool const ok = off == static_cast<long long>(i) && p.location().has_value() && p.location().get_unsafe().line().get() == line &&
+                    p.location().get_unsafe().column().get() == column;
+    if (!ok)
+      vrt::fail("get_position" + t + ":wrong:long:" + phase,
+                vrt::fmt("at index %zu of %s: offset %lld, location %llu:%llu; expected offset %zu, location %llu:%llu", i, show_text(text).c_str(), off,
+                         p.location().has_value() ? static_cast<unsigned long long>(p.location().get_unsafe().line().get()) : 0ULL,
+                         p.location().has_value() ? static_cast<unsigned long long>(p.location().get_unsafe().column().get()) : 0ULL, i,
+                         static_cast<unsigned long long>(line), static_cast<unsigned long long>(column)));
+    return ok;
+  }
+  bool read(std::size_t i, char const *phase)
+  {
+    fcppt::optional::object<Ch> const g = fcppt::parse::get_char(w.ref());
+    bool const ok = i < text.size() ? (g.has_value() && g.get_unsafe() == text[i]) : !g.has_value();
+    if (!ok)
+      vrt::fail("get_char" + t + ":wrong_char:long:" + phase, vrt::fmt("at index %zu of %s: got %s", i, show_text(text).c_str(), show_opt(g).c_str()));
+    return ok;
+  }
+  static void step(Ch c, std::uint64_t &line, std::uint64_t &column)
+  {
+    if (c == Ch('\n'))
+    {
+      ++line;
+      column = 1;
+    }
+    else
+      ++column;
+  }
+
+  // read from index `from` (model location line:column) up to `count` characters or the end; returns false on the first mismatch
+  bool sweep(std::size_t from, std::uint64_t line, std::uint64_t column, std::size_t count, bool mark, char const *phase)
+  {
+    std::size_t const n = text.size();
+    std::size_t i = from;
+    for (std::size_t done = 0;; ++done)
+    {
+      position<Ch> const p = fcppt::parse::get_position(w.ref());
+      if (!expect(p, i, line, column, phase))
+        return false;
+      if (mark && (i == 0 || i == n || (column > 2 ? interesting(column) : interesting(line))))
+        marks.push_back(saved{i, line, column, p});
+      if (i == n || done == count)
+        return true;
+      if (!read(i, phase))
+        return false;
+      step(text[i], line, column);
+      ++i;
+    }
+  }
+
+  void run()
+  {
+    std::size_t const n = text.size();
+    if (!sweep(0, 1, 1, n, true, "first_pass"))
+      return;
+    read(n, "first_pass"); // nothing
+    for (std::size_t k = marks.size(); k-- > 0;)
+    {
+      saved const &s = marks[k];
+      fcppt::parse::set_position(w.ref(), s.pos);
+      position<Ch> const p = fcppt::parse::get_position(w.ref());
+      VRT_CHECK(p == s.pos, "get_position" + t + ":differs_from_saved:long", "after set_position to index %zu of %s", s.index, show_text(text).c_str());
+      if (!sweep(s.index, s.line, s.column, 3, false, "rewind"))
+        return;
+    }
+    fcppt::parse::set_position(w.ref(), marks.front().pos);
+    if (!sweep(0, 1, 1, n, false, "second_pass"))
+      return;
+    read(n, "second_pass");
+    vrt::count("positions_saved_at_boundaries", marks.size());
+  }
+};
+
+template <class Ch> void long_case(std::uint64_t l, std::uint64_t c, std::size_t k)
+{
+  std::string const fn = std::string("straight_long<") + cname<Ch>::v + ">";
+  if (!vrt::begin(fn.c_str(), l, c, k))
+    return;
+  vrt::nontrivial(l > 255 || c > 255);
+  vrt::maybe_sample();
+  std::basic_string<Ch> text;
+  text.reserve(static_cast<std::size_t>((l - 1) * (k + 1) + c));
+  for (std::uint64_t i = 1; i < l; ++i)
+  {
+    text.append(k, Ch('a'));
+    text += Ch('\n');
+  }
+  text.append(static_cast<std::size_t>(c - 1), Ch('a'));
+  vrt::describe(vrt::fmt("%s: %llu lines of %zu 'a', last line %llu 'a' (ends at %llu:%llu)", fn.c_str(), static_cast<unsigned long long>(l - 1), k,
+                         static_cast<unsigned long long>(c - 1), static_cast<unsigned long long>(l), static_cast<unsigned long long>(c)));
+  try
+  {
+    long_runner<Ch> r(text);
+    r.run();
+  }
+  catch (fcppt::parse::detail::exception<Ch> const &e)
+  {
+    vrt::fail(std::string("stream<") + cname<Ch>::v + ">:exception", "'" + narrow_msg(e.what()) + "' on a healthy string stream");
+  }
+}
+
+template <class Ch> void long_part(unsigned part, unsigned nparts)
+{
+  std::vector<std::uint64_t> const &v = lattice();
+  for (std::size_t li = 0; li < v.size(); ++li)
+  {
+    if (li % nparts != part)
+      continue;
+    for (std::uint64_t c : v)
+    {
+      if (vrt::out_of_time())
+        return;
+      long_case<Ch>(v[li], c, 0);
+      if (c <= 11 || c == v[li]) // lines "a\n": against small last lines and on the diagonal
+        long_case<Ch>(v[li], c, 1);
+    }
+  }
+}
+}
+
+void c12::register_long()
+{
+  constexpr unsigned nparts = 4;
+  for (unsigned part = 0; part < nparts; ++part)
+  {
+    vrt::shard("straight_long<char>/" + std::to_string(part), [part] { long_part<char>(part, nparts); });
+    vrt::shard("straight_long<wchar_t>/" + std::to_string(part), [part] { long_part<wchar_t>(part, nparts); });
+  }
+}
